@@ -178,7 +178,8 @@ pub fn check_bytes(sess: &Session, want: &J) -> Result<(), (&'static str, String
     if J::Array(st.clone()) != want["streams"] {
         return Err(("bytes-decoder", format!("independent decoder lists different streams: {}", diff(&J::Array(st), &want["streams"]))));
     }
-    if img.cp != want["cp"].as_i64().unwrap_or(-1) {
+    // id 0 in the pool header is the documented alias of the default page (UTF-8)
+    if (if img.cp == 0 { 65001 } else { img.cp }) != want["cp"].as_i64().unwrap_or(-1) {
         return Err(("bytes-decoder", format!("code page in the pool header is {} but {} expected", img.cp, want["cp"])));
     }
     Ok(())
@@ -188,14 +189,15 @@ pub fn check_bytes(sess: &Session, want: &J) -> Result<(), (&'static str, String
 pub fn run_edge(edge: &J, want_trace: bool) -> (Option<Viol>, Vec<J>) {
     let mut sess = Session::empty();
     let mut trace = Vec::new();
+    let starts_from_image = edge["path"].as_array().and_then(|p| p.first()).map(|e| e["op"] == "OpenImage").unwrap_or(false);
     let create = json!({"op":"Create","args":{"ptype":"Installer"}});
-    if sess.exec(&create) != "Ok" {
+    if !starts_from_image && sess.exec(&create) != "Ok" {
         return (Some(Viol { kind: "create", what: "Package::create failed".into(), detail: json!({}) }), trace);
     }
     for (i, ev) in edge["path"].as_array().cloned().unwrap_or_default().iter().enumerate() {
         let r = sess.exec(ev);
         if r != ev["res"].as_str().unwrap_or("") {
-            return (Some(Viol { kind: "path", what: format!("path step {} returned {} instead of {}", i, r, ev["res"]), detail: json!({"step": ev}) }), trace);
+            return (Some(Viol { kind: "path", what: format!("path step {} returned {} instead of {} ({})", i, r, ev["res"], sess.last_error), detail: json!({"step": ev}) }), trace);
         }
     }
     let ev = &edge["ev"];
@@ -235,7 +237,7 @@ pub fn run_edge(edge: &J, want_trace: bool) -> (Option<Viol>, Vec<J>) {
         trace.push(J::Object(post));
     }
     if r != ev["res"].as_str().unwrap_or("") {
-        return (Some(Viol { kind: if r == "panic" { "panic" } else { "res" }, what: format!("{} returned {} where the specification says {}", ev["op"], r, ev["res"]), detail: json!({}) }), trace);
+        return (Some(Viol { kind: if r == "panic" { "panic" } else { "res" }, what: format!("{} returned {} where the specification says {} ({})", ev["op"], r, ev["res"], sess.last_error), detail: json!({}) }), trace);
     }
     // tables the specification lists as unchanged are taken from what was observed before the step
     let mut dstj = edge["dst"].clone();
